@@ -154,11 +154,16 @@ class SessionBase:
         except TaskTimeout:
             await self.abort()
             raise
-        self.send_size += len(message)
-        self.bump_cost(len(message) * self.bw_cost_per_byte)
+        size = self._message_size(message)
+        self.send_size += size
+        self.bump_cost(size * self.bw_cost_per_byte)
         self.send_count += 1
         self.last_send = time.time()
         return self.last_send
+
+    def _message_size(self, message):
+        '''The size in bytes of an unframed message, for statistics and cost accounting.'''
+        return len(message)
 
     def _bump_errors(self, exception=None):
         self.errors += 1
@@ -331,6 +336,11 @@ class MessageSession(SessionBase):
 
     async def handle_message(self, message):
         '''message is a (command, payload) pair.'''
+
+    def _message_size(self, message):
+        # A message is a (command, payload) pair, not a bytes object
+        command, payload = message
+        return len(command) + len(payload)
 
     async def send_message(self, message):
         '''Send a message (command, payload) over the network.'''
